@@ -23,14 +23,15 @@ deriving Repr, Inhabited
 
 /-- accepted? -/
 def Cls.ok (c : Cls) (embedded : Bool) (n : BitVec 32) : Bool :=
-  let inFile := if embedded then n.ult 16 else n.ult 32
+  -- RV32E / RV64E: only x0..x15 exist, whatever the slot
+  (!embedded || n.ult 16) &&
   match c with
   | .any => true
   | .even => n &&& 1 == 0
   | .noZr => !(n == 31)
   | .low16 => n.ult 16
-  | .no0 => !(n == 0) && inFile
-  | .no02 => !(n == 0) && !(n == 2) && inFile
+  | .no0 => !(n == 0) && n.ult 32
+  | .no02 => !(n == 0) && !(n == 2) && n.ult 32
   | .pop => (8 : BitVec 32).ule n && n.ule 15
   | .pops => ((1 : BitVec 32) <<< n) &&& 0x00FC0300 != 0
   | .popsNe prev => (((1 : BitVec 32) <<< n) &&& 0x00FC0300 != 0) && !(n == BitVec.ofNat 32 prev)
